@@ -421,7 +421,7 @@ func buildSub(sub *Sub) (g compose.AnyGraph, pan *mon.Panic, where string) {
 		if res := inst.apply(op); res.Panic != nil {
 			w := res.Where
 			if w == "" {
-				w = "nested-" + sub.FE + "-" + callName(op) + "/" + panicRule(sub.Ops, i, rule)
+				w = strings.TrimPrefix(panicSignature("nested-"+sub.FE, sub.Ops, i, rule, ""), "C20/panic/")
 			}
 			return nil, res.Panic, w
 		}
